@@ -256,6 +256,33 @@ func parseFields(s string) models.Fields {
 	return f
 }
 
+// faultWriter takes `room` more bytes (room < 0: any number) and then fails for good, like a volume that is full.
+type faultWriter struct {
+	out    []byte
+	room   int
+	failed bool
+	errs   int
+}
+
+func (w *faultWriter) Write(b []byte) (int, error) {
+	if w.failed {
+		w.errs++
+		return 0, io.ErrShortWrite
+	}
+	if w.room < 0 || len(b) <= w.room {
+		w.out = append(w.out, b...)
+		if w.room >= 0 {
+			w.room -= len(b)
+		}
+		return len(b), nil
+	}
+	n := w.room
+	w.out = append(w.out, b[:n]...)
+	w.room, w.failed = 0, true
+	w.errs++
+	return n, io.ErrShortWrite
+}
+
 type nopCloser struct{ io.Reader }
 
 func (nopCloser) Close() error { return nil }
@@ -290,6 +317,10 @@ func execCaseOpt(ops []string, doReplay bool) (out []string) {
 		fbatches  [][]edge.BufferedBatchMessage  // file mode: the batches of the completed sources
 		fcur      []edge.BufferedBatchMessage    // file mode: the batches of the current source
 		liveMode  bool                           // nothing is recorded: the items are fed to Replay*FromChan on channels
+		fault     *faultWriter                   // fault mode: the first recording of the case goes to a writer that fails
+		faultAt   int                            // fault mode: index of the point at whose start the writer's room becomes faultOff
+		faultOff  int
+		nA        int // fault mode: points handed to the failing recording so far
 	)
 	for _, raw := range ops {
 		line := raw
@@ -300,7 +331,7 @@ func execCaseOpt(ops []string, doReplay bool) (out []string) {
 		if len(t) == 0 {
 			continue
 		}
-		need := map[string]int{"stream": 4, "batch": 3, "pt": 7, "b": 6, "replay": 1, "src": 1, "lp": 4, "lpend": 1}
+		need := map[string]int{"stream": 4, "batch": 3, "pt": 7, "b": 6, "replay": 1, "src": 1, "lp": 4, "lpend": 1, "cut": 1}
 		if t[0] == "src" {
 			srcs = append(srcs, append([]byte(nil), buf.Bytes()...))
 			buf.Reset()
@@ -321,7 +352,23 @@ func execCaseOpt(ops []string, doReplay bool) (out []string) {
 			if fileMode {
 				precision = replay.VerifRecordingPrecision
 			}
+			if len(t) > 6 && t[4] == "fault" {
+				// stream <r> <z> <p> fault <j> <off>: the points up to `cut` are a FIRST recording of this process whose
+				// writer takes the first j records and off more bytes and then fails for good (volume full); the errors are
+				// ignored and every point is still handed to the writer, as doRecordStream does
+				fault = &faultWriter{room: -1}
+				faultAt, _ = strconv.Atoi(t[5])
+				faultOff, _ = strconv.Atoi(t[6])
+			}
 			out = append(out, line)
+		case "cut":
+			if fault == nil {
+				out = append(out, line)
+				continue
+			}
+			out = append(out, line+" => "+kit.Esc(string(fault.out))+" "+strconv.Itoa(fault.errs))
+			fault = nil
+			fpoints = nil
 		case "batch":
 			mode, recTime, zero = "batch", t[1] == "1", parseTime(t[2])
 			fileMode = len(t) > 3 && t[3] == "file"
@@ -334,6 +381,18 @@ func execCaseOpt(ops []string, doReplay bool) (out []string) {
 		case "pt":
 			p := edge.NewPointMessage(un(t[3]), un(t[1]), un(t[2]), models.Dimensions{}, parseFields(t[5]), parseTags(t[4]), parseTime(t[6]))
 			fpoints = append(fpoints, p)
+			if fault != nil {
+				if nA == faultAt {
+					fault.room = faultOff
+				}
+				nA++
+				func() {
+					defer func() { recover() }()
+					kapacitor.WritePointForRecording(fault, p, precision) // error ignored (doRecordStream)
+				}()
+				out = append(out, line+" => "+kit.Esc(string(p.GroupID()))+" "+b01(p.Dimensions().ByName)+":"+renderDims(p.Dimensions()))
+				continue
+			}
 			before := buf.Len()
 			func() {
 				defer func() {
